@@ -178,8 +178,11 @@ def cmd_table(a):
             continue
         m = json.load(open(mp))
         r = m["ran"]
-        caught = ", ".join(f"{k.replace('check_', '')} ({r[k]['oracle']})" for k in m.get("caught_by", [])) or "**missed**"
-        first = "missed -> check strengthened" if "check_quick_before_strengthening" in r else "caught"
+        caught = ", ".join(f"{k.replace('check_', '')} ({r[k]['oracle']})" for k in m.get("caught_by", [])) or \
+            ("**missed** - " + m["judgement"] if m.get("judgement") else "**missed**")
+        first = "caught"
+        if "check_quick_before_strengthening" in r:
+            first = "missed -> check strengthened" if m.get("caught_by") else "missed"
         print(f"| {sid} | {m['property']} | {m['needs_to_manifest']} | {r['demo_without_patch']['exit']} / "
               f"{r['demo_with_patch']['exit']} | {first} | {caught} |")
 
